@@ -642,8 +642,8 @@ def run(ctx: Ctx):
     recs = []
     # ---------------- direction 1
     if thorough:
-        scopes = [("stat", dict(max_len=4, vals=(-16, 0, 24, 64), svals=(0, 8)), "segmetrics",
-                   "statistics: all log2 vectors of length 0..4 over {-1/4,0,3/8,1} x segment log2 {0,1/8}, every statistic"),
+        scopes = [("stat", dict(max_len=4, vals=(0, 8, 24, 64), svals=(0, 8)), "segmetrics",
+                   "statistics: all log2 vectors of length 0..4 over {0,1/8,3/8,1} x segment log2 {0,1/8}, every statistic"),
                   ("sel", dict(max_coord=3, nchrom=2, max_bins=3, max_segs=1), "segmetrics",
                    "bin selection: all sorted tables of <= 3 bins x <= 1 segment over 0..3 on 2 chromosomes x skip_low"),
                   ("sel", dict(max_coord=3, nchrom=2, max_bins=2, max_segs=2), "segmetrics",
